@@ -1147,8 +1147,10 @@ func addLinkage(m *Module, st *Stmt) {
 
 func (g *gen) breakSomething() {
 	t := g.t
-	op := t.Draw(30)
-	if op >= 28 {
+	op := t.Draw(34)
+	if op >= 30 {
+		op = 23
+	} else if op >= 28 {
 		op = 22
 	} else if op >= 22 {
 		op = 3 + (op-22)%3 // the reference-cycle shapes (typedefs, identities, features) get three times the weight of the other operators
@@ -1371,6 +1373,54 @@ func (g *gen) breakSomething() {
 			tn := g.name("t")
 			m.Root.Add(S("typedef", tn, S("type", "int8", S("range", "0..10"))), S("leaf", g.name("l"), S("type", tn, S("range", "5..20"))))
 			g.set.Ops = append(g.set.Ops, "bad-range-widening")
+		}
+	case 23: // constructs of YANG 1.1 that this parser rejects today (a tree that learns one of them is compiled with them; on the pinned tree these sets end at the parser)
+		{
+			f := g.name("f11")
+			m.Root.Add(S("feature", f))
+			own := g.owner(m).Name
+			if t.Coin() {
+				g.set.Features = append(g.set.Features, own+":"+f)
+			}
+			switch t.Pick(4, 1, 1, 1, 1, 1) {
+			case 0: // if-feature on an identity at the top of a chain of derived identities, identityref on the bottom
+				n := 1 + t.Draw(3)
+				names := make([]string, n+1)
+				for i := range names {
+					names[i] = g.name("id11")
+				}
+				defs := []*Stmt{S("identity", names[0], S("if-feature", f))}
+				for i := 1; i <= n; i++ {
+					defs = append(defs, S("identity", names[i], S("base", names[i-1])))
+				}
+				for _, i := range t.Perm(len(defs)) {
+					m.Root.Add(defs[i])
+				}
+				ref := names[n]
+				if t.Rare(3) {
+					ref = names[t.Draw(len(names))]
+				}
+				m.Root.Add(S("leaf", g.name("l"), S("type", "identityref", S("base", ref))))
+				g.set.Ops = append(g.set.Ops, "yang11-if-feature-on-identity")
+			case 1: // if-feature on enum / bit
+				m.Root.Add(S("leaf", g.name("l"), S("type", "enumeration", S("enum", "a"), S("enum", "b", S("if-feature", f))), S("default", []string{"a", "b"}[t.Draw(2)])))
+				m.Root.Add(S("leaf", g.name("l"), S("type", "bits", S("bit", "x", S("if-feature", f)), S("bit", "y"))))
+				g.set.Ops = append(g.set.Ops, "yang11-if-feature-on-enum-or-bit")
+			case 2: // identity with two bases
+				a, b, c := g.name("id11"), g.name("id11"), g.name("id11")
+				m.Root.Add(S("identity", a), S("identity", b), S("identity", c, S("base", a), S("base", b)))
+				m.Root.Add(S("leaf", g.name("l"), S("type", "identityref", S("base", []string{a, b}[t.Draw(2)]))))
+				g.set.Ops = append(g.set.Ops, "yang11-identity-with-two-bases")
+			case 3: // leaf-list defaults, if-feature expression
+				m.Root.Add(S("leaf-list", g.name("ll"), S("type", "string"), S("default", "a"), S("default", "b"), S("if-feature", f+" or not "+f)))
+				g.set.Ops = append(g.set.Ops, "yang11-leaf-list-default")
+			case 4: // action and notification inside a container, must under input
+				m.Root.Add(S("container", g.name("c"), S("action", g.name("act"), S0("input", S("must", "true()"), S("leaf", g.name("l"), S("type", "string")))), S("notification", g.name("n"), S("leaf", g.name("l"), S("type", "string")))))
+				g.set.Ops = append(g.set.Ops, "yang11-action")
+			default: // anydata, pattern modifier, if-feature on refine
+				m.Root.Add(S("anydata", g.name("ad")), S("leaf", g.name("l"), S("type", "string", S("pattern", "[a-z]+", S("modifier", "invert-match")))))
+				g.set.Ops = append(g.set.Ops, "yang11-anydata-modifier")
+			}
 		}
 	case 22: // a module or submodule refers to its OWN definitions through its own prefix (in a submodule: the belongs-to prefix), plainly or as one step of a cycle
 		{
